@@ -85,6 +85,28 @@ var c08AmbientPkgs = map[string]string{
 var c08TimeFuncs = map[string]bool{"Now": true, "Since": true, "Until": true, "After": true, "AfterFunc": true,
 	"Tick": true, "Sleep": true, "NewTimer": true, "NewTicker": true}
 
+// Round 3.  Constructors of package time whose result is a time.Time in the PROCESS-LOCAL zone (TZ,
+// /etc/localtime): the instant is chain data, the zone is not.  (time.Date / time.ParseInLocation / Time.In
+// with the literal location time.UTC are not sites; time.Parse attaches the local zone when the text's
+// offset is one the local zone uses.)
+var c08LocalTimeFuncs = map[string]bool{"Unix": true, "UnixMilli": true, "UnixMicro": true, "Date": true, "Parse": true, "ParseInLocation": true}
+
+// methods of time.Time that look only at the instant, never at the zone
+var c08InstantMethods = map[string]bool{"Unix": true, "UnixNano": true, "UnixMilli": true, "UnixMicro": true, "Sub": true,
+	"Before": true, "After": true, "Equal": true, "Compare": true, "IsZero": true, "UTC": true, "Nanosecond": true}
+
+// methods of time.Time whose result is again a time in the same zone: look at what happens to THEIR result
+var c08SameZoneMethods = map[string]bool{"Add": true, "Round": true, "Truncate": true}
+
+// methods of time.Time that take another time and look only at the instants
+var c08InstantArgMethods = map[string]bool{"Sub": true, "Before": true, "After": true, "Equal": true, "Compare": true}
+
+// methods of time.Time whose result depends on the zone the value carries (calendar arithmetic, rendering)
+var c08ZoneMethods = map[string]bool{"AddDate": true, "Date": true, "Clock": true, "Year": true, "Month": true, "Day": true,
+	"Hour": true, "Minute": true, "Second": true, "Weekday": true, "YearDay": true, "ISOWeek": true, "Format": true,
+	"AppendFormat": true, "String": true, "GoString": true, "Zone": true, "ZoneBounds": true, "Location": true, "IsDST": true,
+	"MarshalJSON": true, "MarshalText": true, "MarshalBinary": true, "GobEncode": true}
+
 // functions that return the keys / values of a map in iteration order
 var c08MapOrderPkgs = map[string]bool{"maps": true, "golang.org/x/exp/maps": true}
 
@@ -332,6 +354,22 @@ func extractC08(c *Ctx) error {
 	}
 	c.P("(* x/consensus/keeper jailValidatorsWhichMissedAttestation: the range statement(s) whose body calls valset.Jail, as <type kind>:<range expression> *)")
 	c.P("Definition jail_missing_loop : string := %s.", CoqStr(jl))
+	// round 3: the comparator rankValidators sorts with (must be the strict total order the model proves things about)
+	rc, err := c08RankComparator(c, pkgs)
+	if err != nil {
+		return err
+	}
+	c.P("(* x/evm/keeper rankValidators: the sort call and the statements of its comparator; anything but the score GT / LT tests and a final return is \"unknown:...\" *)")
+	c.P("Definition rank_comparator : list string := %s.", CoqStrList(rc))
+	c.Info("rank_comparator", rc)
+	// round 3: where the vesting period of a light-node client comes from
+	vs, err := c08VestingShape(c, pkgs)
+	if err != nil {
+		return err
+	}
+	c.P("(* x/paloma/keeper CreateLightNodeClientAccount: definitions of the local time.Time variables and what they are used for *)")
+	c.P("Definition vesting_period_shape : list string := %s.", CoqStrList(vs))
+	c.Info("vesting_period_shape", vs)
 	c.Info("jail_missing_loop", jl)
 	c.Info("sites", len(sites))
 	c.Info("by_kind", byKind)
@@ -439,8 +477,52 @@ func c08ScanFile(c *Ctx, p *packages.Package, f *ast.File, rel string) ([]*c08Si
 			}
 			return true
 		})
+		// parents, to see what a value is used for (round 3: time values)
+		parent := map[ast.Node]ast.Node{}
+		var stack []ast.Node
+		ast.Inspect(body, func(n ast.Node) bool {
+			if n == nil {
+				stack = stack[:len(stack)-1]
+				return true
+			}
+			if len(stack) > 0 {
+				parent[n] = stack[len(stack)-1]
+			}
+			stack = append(stack, n)
+			return true
+		})
+		tu := &c08TimeUse{c: c, info: info, parent: parent, body: body}
 		ast.Inspect(body, func(n ast.Node) bool {
 			switch x := n.(type) {
+			case *ast.CallExpr:
+				// a time.Time handed to a parameter of interface type (fmt verbs, loggers, error constructors): rendered
+				// by its String method, in the zone the value carries
+				if sig, ok := info.TypeOf(x.Fun).(*types.Signature); ok {
+					for i, a := range x.Args {
+						if !c08IsTime(info.TypeOf(a)) {
+							continue
+						}
+						var pt types.Type
+						switch {
+						case sig.Variadic() && i >= sig.Params().Len()-1:
+							if sl, ok := sig.Params().At(sig.Params().Len() - 1).Type().(*types.Slice); ok {
+								pt = sl.Elem()
+							}
+						case i < sig.Params().Len():
+							pt = sig.Params().At(i).Type()
+						}
+						if pt == nil {
+							continue
+						}
+						if _, isIface := pt.Underlying().(*types.Interface); isIface {
+							auto := ""
+							if tu.utcExpr(a, 0) {
+								auto = "utc-receiver"
+							}
+							add("TimeToAny", fn, c.Src(x.Fun)+"(.. "+c.Src(a)+" ..)", a, auto)
+						}
+					}
+				}
 			case *ast.RangeStmt:
 				t := info.TypeOf(x.X)
 				if t == nil {
@@ -492,6 +574,20 @@ func c08ScanFile(c *Ctx, p *packages.Package, f *ast.File, rel string) ([]*c08Si
 							// the process's time zone (TZ, /etc/localtime)
 							add("OsCall", fn, name, x, "")
 						}
+						if path == "time" && c08LocalTimeFuncs[x.Sel.Name] {
+							if _, isFn := info.Uses[x.Sel].(*types.Func); isFn {
+								call, _ := parent[x].(*ast.CallExpr)
+								if call == nil || call.Fun != ast.Expr(x) {
+									add("LocalTime", fn, name, x, "") // the function taken as a value
+								} else if !((x.Sel.Name == "Date" || x.Sel.Name == "ParseInLocation") && len(call.Args) > 0 && tu.isUTCLoc(call.Args[len(call.Args)-1])) {
+									auto := ""
+									if tu.instantOnly(call, 0) {
+										auto = "instant-only"
+									}
+									add("LocalTime", fn, name, x, auto)
+								}
+							}
+						}
 						if c08MapOrderPkgs[path] {
 							add("MapOrderCall", fn, name, x, "")
 						}
@@ -509,6 +605,22 @@ func c08ScanFile(c *Ctx, p *packages.Package, f *ast.File, rel string) ([]*c08Si
 						case m.Pkg().Path() == "time" && m.Name() == "Local":
 							// time.Time.Local: renders an instant in the process's time zone
 							add("OsCall", fn, full, x, "")
+						case m.Pkg().Path() == "time" && m.Name() == "In" && c08IsTime(info.TypeOf(x.X)):
+							// t.In(loc): a zone chosen at run time, unless it is the literal time.UTC
+							if call, ok := parent[x].(*ast.CallExpr); !ok || len(call.Args) != 1 || !tu.isUTCLoc(call.Args[0]) {
+								auto := ""
+								if call != nil && tu.instantOnly(call, 0) {
+									auto = "instant-only"
+								}
+								add("LocalTime", fn, "time.Time.In", x, auto)
+							}
+						case m.Pkg().Path() == "time" && c08ZoneMethods[m.Name()] && c08IsTime(info.TypeOf(x.X)):
+							// calendar arithmetic / rendering: depends on the zone the value carries
+							auto := ""
+							if tu.utcExpr(x.X, 0) {
+								auto = "utc-receiver"
+							}
+							add("CalendarUse", fn, c.Src(x), x, auto)
 						case m.Pkg().Path() == "math/rand" || m.Pkg().Path() == "math/rand/v2":
 							add("Random", fn, full, x, "")
 						}
@@ -562,6 +674,211 @@ func c08ScanFile(c *Ctx, p *packages.Package, f *ast.File, rel string) ([]*c08Si
 		}
 	}
 	return out, nil
+}
+
+// ---- round 3: what a time value is used for, and where it comes from ----
+
+type c08TimeUse struct {
+	c      *Ctx
+	info   *types.Info
+	parent map[ast.Node]ast.Node
+	body   ast.Node
+}
+
+func c08IsTime(t types.Type) bool {
+	if t == nil {
+		return false
+	}
+	if p, ok := t.(*types.Pointer); ok {
+		t = p.Elem()
+	}
+	n, ok := t.(*types.Named)
+	return ok && n.Obj().Pkg() != nil && n.Obj().Pkg().Path() == "time" && n.Obj().Name() == "Time"
+}
+
+// isUTCLoc: the literal time.UTC
+func (tu *c08TimeUse) isUTCLoc(e ast.Expr) bool {
+	se, ok := e.(*ast.SelectorExpr)
+	if !ok || se.Sel.Name != "UTC" {
+		return false
+	}
+	id, ok := se.X.(*ast.Ident)
+	if !ok {
+		return false
+	}
+	pn, ok := tu.info.Uses[id].(*types.PkgName)
+	return ok && pn.Imported().Path() == "time"
+}
+
+func (tu *c08TimeUse) timeMethod(se *ast.SelectorExpr) string {
+	if sel, ok := tu.info.Selections[se]; ok && sel.Kind() == types.MethodVal {
+		if m, ok := sel.Obj().(*types.Func); ok && m.Pkg() != nil && m.Pkg().Path() == "time" && c08IsTime(sel.Recv()) {
+			return m.Name()
+		}
+	}
+	return ""
+}
+
+// localVar: e is an identifier of a variable declared inside a function
+func (tu *c08TimeUse) localVar(e ast.Expr) *types.Var {
+	id, ok := e.(*ast.Ident)
+	if !ok {
+		return nil
+	}
+	v, _ := tu.info.ObjectOf(id).(*types.Var)
+	if v == nil || v.IsField() || v.Pkg() == nil || v.Parent() == nil || v.Parent() == v.Pkg().Scope() {
+		return nil
+	}
+	return v
+}
+
+// idents: every identifier inside the scanned body that denotes v
+func (tu *c08TimeUse) idents(v *types.Var) (out []*ast.Ident) {
+	ast.Inspect(tu.body, func(n ast.Node) bool {
+		if id, ok := n.(*ast.Ident); ok && tu.info.ObjectOf(id) == types.Object(v) {
+			out = append(out, id)
+		}
+		return true
+	})
+	return out
+}
+
+// instantOnly: the value of expression e is consumed only by operations that look at the instant — a method of
+// c08InstantMethods called on it, an argument of Before/After/Equal/Compare/Sub, or a local variable every use of
+// which is such (Add/Round/Truncate pass the zone on: their result is followed).  Anything else (returned, stored in a
+// field, passed to a function, a calendar method) is not.
+func (tu *c08TimeUse) instantOnly(e ast.Node, depth int) bool {
+	if depth > 6 {
+		return false
+	}
+	switch p := tu.parent[e].(type) {
+	case *ast.ParenExpr:
+		return tu.instantOnly(p, depth+1)
+	case *ast.SelectorExpr:
+		if p.X != e {
+			return false
+		}
+		call, ok := tu.parent[p].(*ast.CallExpr)
+		if !ok || call.Fun != ast.Expr(p) {
+			return false
+		}
+		m := tu.timeMethod(p)
+		if c08InstantMethods[m] {
+			return true
+		}
+		if c08SameZoneMethods[m] {
+			return tu.instantOnly(call, depth+1)
+		}
+		return false
+	case *ast.CallExpr:
+		se, ok := p.Fun.(*ast.SelectorExpr)
+		if !ok || p.Fun == e {
+			return false
+		}
+		return c08InstantArgMethods[tu.timeMethod(se)]
+	case *ast.AssignStmt:
+		if len(p.Lhs) != 1 || len(p.Rhs) != 1 || p.Rhs[0] != e {
+			return false
+		}
+		v := tu.localVar(p.Lhs[0])
+		if v == nil {
+			return false
+		}
+		for _, id := range tu.idents(v) {
+			if ast.Expr(id) == p.Lhs[0] {
+				continue
+			}
+			if as, ok := tu.parent[id].(*ast.AssignStmt); ok && len(as.Lhs) == 1 && as.Lhs[0] == ast.Expr(id) {
+				continue // another assignment to the variable: its right-hand side is a site of its own if it is a local time
+			}
+			if u, ok := tu.parent[id].(*ast.UnaryExpr); ok && u.Op == token.AND {
+				return false
+			}
+			if !tu.instantOnly(id, depth+1) {
+				return false
+			}
+		}
+		return true
+	}
+	return false
+}
+
+// utcExpr: the expression is a time in UTC by construction — x.UTC(), the block time of an sdk.Context
+// (WithBlockTime / WithBlockHeader / WithHeaderInfo store t.UTC()), time.Date(..., time.UTC), Add/Round/Truncate of
+// such a value, or a local variable whose every assignment is such an expression.
+func (tu *c08TimeUse) utcExpr(e ast.Expr, depth int) bool {
+	if depth > 6 {
+		return false
+	}
+	switch x := e.(type) {
+	case *ast.ParenExpr:
+		return tu.utcExpr(x.X, depth+1)
+	case *ast.CallExpr:
+		se, ok := x.Fun.(*ast.SelectorExpr)
+		if !ok {
+			return false
+		}
+		if m := tu.timeMethod(se); m != "" {
+			if m == "UTC" {
+				return true
+			}
+			if c08SameZoneMethods[m] || m == "AddDate" {
+				return tu.utcExpr(se.X, depth+1)
+			}
+			return false
+		}
+		if sel, ok := tu.info.Selections[se]; ok && sel.Kind() == types.MethodVal && se.Sel.Name == "BlockTime" {
+			rt := sel.Recv()
+			if p, ok := rt.(*types.Pointer); ok {
+				rt = p.Elem()
+			}
+			if n, ok := rt.(*types.Named); ok && n.Obj().Pkg() != nil && n.Obj().Pkg().Path() == "github.com/cosmos/cosmos-sdk/types" && n.Obj().Name() == "Context" {
+				return true
+			}
+		}
+		if id, ok := se.X.(*ast.Ident); ok {
+			if pn, ok := tu.info.Uses[id].(*types.PkgName); ok && pn.Imported().Path() == "time" && se.Sel.Name == "Date" && len(x.Args) > 0 {
+				return tu.isUTCLoc(x.Args[len(x.Args)-1])
+			}
+		}
+		return false
+	case *ast.Ident:
+		v := tu.localVar(x)
+		if v == nil {
+			return false
+		}
+		defs := 0
+		for _, id := range tu.idents(v) {
+			switch p := tu.parent[id].(type) {
+			case *ast.AssignStmt:
+				for i, l := range p.Lhs {
+					if l != ast.Expr(id) {
+						continue
+					}
+					if len(p.Lhs) != len(p.Rhs) || !tu.utcExpr(p.Rhs[i], depth+1) {
+						return false
+					}
+					defs++
+				}
+			case *ast.ValueSpec:
+				for i, nm := range p.Names {
+					if nm != id {
+						continue
+					}
+					if i >= len(p.Values) || !tu.utcExpr(p.Values[i], depth+1) {
+						return false
+					}
+					defs++
+				}
+			case *ast.UnaryExpr:
+				if p.Op == token.AND {
+					return false
+				}
+			}
+		}
+		return defs > 0
+	}
+	return false
 }
 
 // c08MutableKind: types whose zero/initial value can be changed without an assignment to the
@@ -996,4 +1313,216 @@ func c08JailLoop(c *Ctx, pkgs []*packages.Package) (string, error) {
 		}
 	}
 	return "", fmt.Errorf("x/consensus/keeper Keeper.jailValidatorsWhichMissedAttestation not found")
+}
+
+// c08RankComparator reads the comparator of the sort in x/evm/keeper rankValidators.  Output: the sort call with its
+// first argument, then one string per statement of the comparator, parameters renamed to a and b:
+// "if a.score.GT(b.score) return -1", "if a.score.LT(b.score) return 1", "return strings.Compare(a.address, b.address)".
+// Only `<p>.score.GT|LT(<q>.score)` conditions with a single `return <int literal>` body are understood; any other
+// statement or condition (a tolerance, an absolute value, a threshold, a nested if) is printed as "unknown:<source>".
+func c08RankComparator(c *Ctx, pkgs []*packages.Package) ([]string, error) {
+	norm := func(n ast.Node) string { return c08Ascii(strings.Join(strings.Fields(c.Src(n)), " ")) }
+	for _, p := range pkgs {
+		if !strings.HasSuffix(p.PkgPath, "/x/evm/keeper") {
+			continue
+		}
+		for _, f := range p.Syntax {
+			fd := FindFunc(f, "", "rankValidators")
+			if fd == nil || fd.Body == nil {
+				continue
+			}
+			var out []string
+			nsorts := 0
+			ast.Inspect(fd.Body, func(n ast.Node) bool {
+				ce, ok := n.(*ast.CallExpr)
+				if !ok {
+					return true
+				}
+				se, ok := ce.Fun.(*ast.SelectorExpr)
+				if !ok || !strings.Contains(se.Sel.Name, "Sort") {
+					return true
+				}
+				nsorts++
+				if len(ce.Args) < 1 {
+					out = append(out, "unknown:"+norm(ce))
+					return true
+				}
+				out = append(out, norm(ce.Fun)+"("+norm(ce.Args[0])+")")
+				if len(ce.Args) != 2 {
+					out = append(out, "unknown:sort without comparator")
+					return true
+				}
+				fl, ok := ce.Args[1].(*ast.FuncLit)
+				if !ok || len(fl.Type.Params.List) == 0 {
+					out = append(out, "unknown:"+norm(ce.Args[1]))
+					return true
+				}
+				var names []string
+				for _, pf := range fl.Type.Params.List {
+					for _, nm := range pf.Names {
+						names = append(names, nm.Name)
+					}
+				}
+				if len(names) != 2 {
+					out = append(out, "unknown:comparator parameters")
+					return true
+				}
+				ren := func(s string) string {
+					// whole-word renaming of the two parameters
+					var b strings.Builder
+					isw := func(r byte) bool { return r == '_' || r >= '0' && r <= '9' || r >= 'a' && r <= 'z' || r >= 'A' && r <= 'Z' }
+					for i := 0; i < len(s); {
+						j := i
+						for j < len(s) && isw(s[j]) {
+							j++
+						}
+						if j == i {
+							b.WriteByte(s[i])
+							i++
+							continue
+						}
+						w := s[i:j]
+						if i > 0 && s[i-1] == '.' {
+							b.WriteString(w)
+						} else if w == names[0] {
+							b.WriteString("a")
+						} else if w == names[1] {
+							b.WriteString("b")
+						} else {
+							b.WriteString(w)
+						}
+						i = j
+					}
+					return b.String()
+				}
+				condOK := func(s string) bool {
+					for _, ok := range []string{"a.score.GT(b.score)", "a.score.LT(b.score)", "b.score.GT(a.score)", "b.score.LT(a.score)"} {
+						if s == ok {
+							return true
+						}
+					}
+					return false
+				}
+				for _, st := range fl.Body.List {
+					switch x := st.(type) {
+					case *ast.IfStmt:
+						for cur := x; cur != nil; {
+							cond := ren(norm(cur.Cond))
+							okBody := cur.Init == nil && len(cur.Body.List) == 1
+							var ret *ast.ReturnStmt
+							if okBody {
+								ret, _ = cur.Body.List[0].(*ast.ReturnStmt)
+							}
+							if !condOK(cond) || ret == nil || len(ret.Results) != 1 {
+								out = append(out, "unknown:"+ren(norm(cur)))
+								break
+							}
+							switch v := ren(norm(ret.Results[0])); v {
+							case "-1", "1":
+								out = append(out, "if "+cond+" return "+v)
+							default:
+								out = append(out, "unknown:"+ren(norm(cur)))
+							}
+							next, _ := cur.Else.(*ast.IfStmt)
+							if cur.Else != nil && next == nil {
+								out = append(out, "unknown:else "+ren(norm(cur.Else)))
+							}
+							cur = next
+						}
+					case *ast.ReturnStmt:
+						out = append(out, ren(norm(x)))
+					default:
+						out = append(out, "unknown:"+ren(norm(st)))
+					}
+				}
+				return true
+			})
+			if nsorts == 0 {
+				return []string{"none"}, nil
+			}
+			return out, nil
+		}
+	}
+	return nil, fmt.Errorf("x/evm/keeper rankValidators not found")
+}
+
+// c08VestingShape: in x/paloma/keeper Keeper.CreateLightNodeClientAccount, every local variable of type time.Time: its
+// definitions ("name := <rhs>") in source order, then what each is used for besides ("<kind>: <call>", sorted): the vesting
+// period must be computed from the block time itself.
+func c08VestingShape(c *Ctx, pkgs []*packages.Package) ([]string, error) {
+	norm := func(n ast.Node) string { return c08Ascii(strings.Join(strings.Fields(c.Src(n)), " ")) }
+	for _, p := range pkgs {
+		if !strings.HasSuffix(p.PkgPath, "/x/paloma/keeper") {
+			continue
+		}
+		for _, f := range p.Syntax {
+			fd := FindFunc(f, "Keeper", "CreateLightNodeClientAccount")
+			if fd == nil || fd.Body == nil {
+				continue
+			}
+			parent := map[ast.Node]ast.Node{}
+			var stack []ast.Node
+			ast.Inspect(fd.Body, func(n ast.Node) bool {
+				if n == nil {
+					stack = stack[:len(stack)-1]
+					return true
+				}
+				if len(stack) > 0 {
+					parent[n] = stack[len(stack)-1]
+				}
+				stack = append(stack, n)
+				return true
+			})
+			var defs, uses []string
+			ast.Inspect(fd.Body, func(n ast.Node) bool {
+				id, ok := n.(*ast.Ident)
+				if !ok {
+					return true
+				}
+				v, _ := p.TypesInfo.ObjectOf(id).(*types.Var)
+				if v == nil || v.IsField() || !c08IsTime(v.Type()) || v.Parent() == nil || v.Parent() == p.Types.Scope() {
+					return true
+				}
+				switch pp := parent[id].(type) {
+				case *ast.AssignStmt:
+					for i, l := range pp.Lhs {
+						if l == ast.Expr(id) {
+							if len(pp.Lhs) == len(pp.Rhs) {
+								defs = append(defs, id.Name+" := "+norm(pp.Rhs[i]))
+							} else {
+								defs = append(defs, id.Name+" := one of "+norm(pp.Rhs[0]))
+							}
+							return true
+						}
+					}
+					uses = append(uses, "copied: "+norm(pp))
+				case *ast.SelectorExpr:
+					if call, ok := parent[pp].(*ast.CallExpr); ok && call.Fun == ast.Expr(pp) && pp.X == ast.Expr(id) {
+						if as, ok := parent[call].(*ast.AssignStmt); ok && len(as.Rhs) == 1 && as.Rhs[0] == ast.Expr(call) {
+							return true // the definition of another variable: listed there
+						}
+						kind := "use"
+						switch {
+						case strings.HasPrefix(id.Name, "end"):
+							kind = "end"
+						case strings.HasPrefix(id.Name, "begin") || strings.HasPrefix(id.Name, "start"):
+							kind = "start"
+						}
+						uses = append(uses, kind+": "+norm(call))
+					} else {
+						uses = append(uses, "escapes: "+norm(parent[id]))
+					}
+				default:
+					uses = append(uses, "escapes: "+norm(parent[id]))
+				}
+				return true
+			})
+			sort.Strings(uses)
+			if len(defs)+len(uses) == 0 {
+				return []string{"none"}, nil
+			}
+			return append(defs, uses...), nil
+		}
+	}
+	return nil, fmt.Errorf("x/paloma/keeper Keeper.CreateLightNodeClientAccount not found")
 }
